@@ -121,22 +121,64 @@ func c15ReceiptView(rc *types.TxReceipt) map[string]interface{} {
 		"contract": rc.ContractAddress.Hex(), "events": ev}
 }
 
-// Eval = one contract transaction as a twin pair, all oracles.
-func (x *c15Ctx) Eval(a *C15Action) (out c15Outcome) {
-	w, twin, rep := x.w, x.twin, x.rep
+// kindOf: contract type from the PRE-state (authoritative), the generator's belief only for deployments
+func (x *c15Ctx) kindOf(a *C15Action) string {
 	tx := a.Tx
-	sender := a.From.Addr
-	pre := twin.AppState // canonical head state the twin blocks are applied on
-	// contract type from the PRE-state (authoritative), the generator's belief only for deployments
 	kind := a.Kind
 	if tx.To != nil && tx.Type != types.DeployContractTx {
-		kind = c15Versioned(c15KindOfHash(pre.State.GetCodeHash(*tx.To)), w.Cons.EnableUpgrade10)
+		kind = c15Versioned(c15KindOfHash(x.twin.AppState.State.GetCodeHash(*tx.To)), x.w.Cons.EnableUpgrade10)
 	} else if tx.Type == types.DeployContractTx {
 		if att := attachments.ParseDeployContractAttachment(tx); att != nil && len(att.Code) > 0 {
 			h := common.Hash(crypto.Hash(att.Code))
 			kind = c15KindOfHash(&h)
 		}
 	}
+	return kind
+}
+
+// c15Unexplained is the core of oracle (1): given the keys in which the state after a block WITH
+// failed contract transactions differs from the state after the same block WITHOUT them, it
+// returns those a failed transaction does not explain. Explained are only: the account of a
+// failed tx's sender (balance / nonce / epoch, never its contract part), the proposer's account
+// and identity (fee reward) and the fee rate inside Global. senderContract lists sender
+// accounts whose contract part changed.
+func c15Unexplained(diff []string, s0, s1 map[string][]byte, senders []common.Address, coinbase common.Address) (foreign []string, senderContract []string) {
+	keyCbAcc := string(state.StateDbKeys.AddressKey(coinbase))
+	keyCbId := string(state.StateDbKeys.IdentityKey(coinbase))
+	keyGlobal := string(state.StateDbKeys.GlobalKey())
+	senderKeys := map[string]bool{}
+	for _, s := range senders {
+		senderKeys[string(state.StateDbKeys.AddressKey(s))] = true
+	}
+	for _, k := range diff {
+		switch {
+		case k == keyCbAcc || k == keyCbId:
+			continue
+		case senderKeys[k]:
+			var a0, a1 state.Account
+			a0.FromBytes(s0[k])
+			a1.FromBytes(s1[k])
+			if (a0.Contract == nil) != (a1.Contract == nil) {
+				senderContract = append(senderContract, k)
+			}
+			continue
+		case k == keyGlobal:
+			if bytes.Equal(c15GlobalSansFee(s0[k]), c15GlobalSansFee(s1[k])) {
+				continue
+			}
+		}
+		foreign = append(foreign, k)
+	}
+	return
+}
+
+// Eval = one contract transaction as a twin pair, all oracles.
+func (x *c15Ctx) Eval(a *C15Action) (out c15Outcome) {
+	w, twin, rep := x.w, x.twin, x.rep
+	tx := a.Tx
+	sender := a.From.Addr
+	pre := twin.AppState // canonical head state the twin blocks are applied on
+	kind := x.kindOf(a)
 	out.Kind = kind
 	tag := kind + ":" + a.Method
 	replay := map[string]interface{}{"tx": a.Describe(), "head": twin.Head().Height(), "scenario_seed": w.Opt.Seed, "step": x.gen.Step}
@@ -178,6 +220,24 @@ func (x *c15Ctx) Eval(a *C15Action) (out c15Outcome) {
 	}
 	rep.Count("shape:"+a.Shape, 1)
 	rep.Count("gas:"+a.GasClass+":"+outcome, 1)
+	// which class of address the tx names as recipient (the contract itself, the sender, ...)
+	self := rc.ContractAddress
+	if tx.To != nil {
+		self = *tx.To
+	}
+	for _, d := range c15DestsOf(kind, tx, rc, tr) {
+		cls := c15DestClass(d.Addr, self, sender, tr.B1.Header.Coinbase(), pre.State)
+		name := kind + "." + a.Method + ":" + cls
+		switch {
+		case !rc.Success:
+			rep.Count("dest_class_failed:"+name, 1)
+		case d.Value != nil && d.Value.Sign() == 0:
+			rep.Count("dest_class_zero_amount:"+name, 1)
+		default:
+			rep.Count("dest_class:"+name, 1) // succeeded, and if the method moves coins it moved > 0
+			rep.Count("dest_class_any_contract:"+a.Method+":"+cls, 1)
+		}
+	}
 	if tr.Forced {
 		rep.Count("twins_forced_past_pool", 1)
 	}
@@ -194,10 +254,6 @@ func (x *c15Ctx) Eval(a *C15Action) (out c15Outcome) {
 	s0, s1 := C15StateKV(tr.Post0), C15StateKV(tr.Post1)
 	diff := c15DiffKeys(s0, s1)
 	coinbase := tr.B1.Header.Coinbase()
-	keySender := string(state.StateDbKeys.AddressKey(sender))
-	keyCbAcc := string(state.StateDbKeys.AddressKey(coinbase))
-	keyCbId := string(state.StateDbKeys.IdentityKey(coinbase))
-	keyGlobal := string(state.StateDbKeys.GlobalKey())
 	var diffDesc []string
 	for _, k := range diff {
 		diffDesc = append(diffDesc, c15DescribeKey(k))
@@ -209,26 +265,14 @@ func (x *c15Ctx) Eval(a *C15Action) (out c15Outcome) {
 		if pre.ValidatorsCache.IsPool(coinbase) {
 			rep.Count("oracle1_skipped_pool_proposer", 1)
 		} else {
-			for _, k := range diff {
-				switch k {
-				case keyCbAcc, keyCbId:
-					continue
-				case keySender:
-					var a0, a1 state.Account
-					a0.FromBytes(s0[k])
-					a1.FromBytes(s1[k])
-					if (a0.Contract == nil) != (a1.Contract == nil) {
-						rep.Violation("failure-left-trace:"+tag, fmt.Sprintf("failed %s changed the contract part of the sender's account", a.Describe()), replay)
-					}
-					continue
-				case keyGlobal:
-					if bytes.Equal(c15GlobalSansFee(s0[k]), c15GlobalSansFee(s1[k])) {
-						continue
-					}
-				}
+			foreign, senderContract := c15Unexplained(diff, s0, s1, []common.Address{sender}, coinbase)
+			if len(senderContract) > 0 {
+				rep.Violation("failure-left-trace:"+tag, fmt.Sprintf("failed %s changed the contract part of the sender's account", a.Describe()), replay)
+			}
+			if len(foreign) > 0 {
+				k := foreign[0]
 				rep.Violation("failure-left-trace:"+tag, fmt.Sprintf("receipt says failure (%v) but the block with the tx differs from the block without it in %s: without=%x with=%x; tx: %s",
 					rc.Error, c15DescribeKey(k), trunc(s0[k], 48), trunc(s1[k], 48), a.Describe()), replay)
-				break
 			}
 			if tr.Post0.IdentityState.Root() != tr.Post1.IdentityState.Root() {
 				rep.Violation("failure-left-trace:"+tag, fmt.Sprintf("failed %s changed the identity-state tree", a.Describe()), replay)
@@ -348,6 +392,54 @@ func (x *c15Ctx) checkSuccess(a *C15Action, kind string, tr *TwinResult, rc *typ
 	storeKey := func(c common.Address, key []byte) []byte {
 		return s1[string(state.StateDbKeys.ContractStoreKey(c, key))]
 	}
+	// moved: a successful call to contract `addr` carrying pay amount P that makes the contract send
+	// `amt` to `dest`. Balances with the tx versus without it: contract +P-amt, destination +amt -
+	// which is +P for the contract when it pays ITSELF (a self-transfer is neutral). The sender's
+	// and the proposer's balances also carry the fee, so they get bounds instead of equalities.
+	// And a contract never sends more than it holds.
+	moved := func(what string, addr, dest common.Address, amt *big.Int) {
+		pay := tx.AmountOrZero()
+		if held := new(big.Int).Add(tr.Post0.State.GetBalance(addr), pay); amt.Cmp(held) > 0 {
+			bad("overspend", "%s of %v succeeded although the contract held only %v (incl. the pay amount %v)", what, amt, held, pay)
+		}
+		want := map[common.Address]*big.Int{addr: new(big.Int).Set(pay)}
+		want[addr].Sub(want[addr], amt)
+		if want[dest] == nil {
+			want[dest] = new(big.Int)
+		}
+		want[dest].Add(want[dest], amt)
+		feeCap := new(big.Int).Add(tx.MaxFeeOrZero(), tx.TipsOrZero())
+		for ad, wd := range want {
+			d := delta(l0, l1, ad)
+			label := "dest-balance"
+			if ad == addr {
+				label = "contract-balance"
+			}
+			switch {
+			case ad == sender && ad == coinbase:
+			case ad == sender:
+				// the sender paid the pay amount and the fee and got wd back
+				hi := new(big.Int).Sub(wd, pay)
+				lo := new(big.Int).Sub(hi, feeCap)
+				if d.Cmp(hi) > 0 || d.Cmp(lo) < 0 {
+					bad("sender-"+label, "%s %v to the sender: its balance changed by %v, expected within [%v, %v] (pay amount %v, MaxFee+tips %v)", what, amt, d, lo, hi, pay, feeCap)
+				}
+			case ad == coinbase:
+				hi := new(big.Int).Add(wd, feeCap)
+				if d.Cmp(wd) < 0 || d.Cmp(hi) > 0 {
+					bad("proposer-"+label, "%s %v to the proposer: its balance changed by %v, expected within [%v, %v]", what, amt, d, wd, hi)
+				}
+			case d.Cmp(wd) != 0:
+				if ad == addr && dest == addr {
+					bad(label, "%s %v to the contract ITSELF: its balance changed by %v, expected the pay amount %v only", what, amt, d, pay)
+				} else if ad == addr {
+					bad(label, "contract balance changed by %v, expected pay amount %v - %s %v", d, pay, what, amt)
+				} else {
+					bad(label, "destination %x received %v, %s amount %v", ad[:4], d, what, amt)
+				}
+			}
+		}
+	}
 	rep.Count("oracle4_success_checked", 1)
 	switch tx.Type {
 	case types.DeployContractTx:
@@ -409,6 +501,11 @@ func (x *c15Ctx) checkSuccess(a *C15Action, kind string, tr *TwinResult, rc *typ
 			if d := delta(l0, l1, dest); d.Cmp(new(big.Int).Quo(stake, big.NewInt(2))) < 0 {
 				bad("stake-refund", "stake %v, destination %x got %v", stake, dest[:4], d)
 			}
+		} else if dest == addr {
+			// the terminated contract named ITSELF: the refund stays on the (now plain) account
+			if got := post.GetBalance(addr); got.Cmp(new(big.Int).Quo(stake, big.NewInt(2))) < 0 {
+				bad("stake-refund", "stake %v refunded to the terminated contract itself, which ends with %v", stake, got)
+			}
 		}
 	case types.CallContractTx:
 		addr := *tx.To
@@ -423,18 +520,7 @@ func (x *c15Ctx) checkSuccess(a *C15Action, kind string, tr *TwinResult, rc *typ
 		switch kind {
 		case kTimeLock:
 			if att.Method == "transfer" {
-				dest, amt := c15AddrOf(arg(0)), new(big.Int).SetBytes(arg(1))
-				if dest != addr && !special(addr) {
-					want := new(big.Int).Sub(tx.AmountOrZero(), amt)
-					if d := delta(l0, l1, addr); d.Cmp(want) != 0 {
-						bad("contract-balance", "TimeLock balance changed by %v, expected pay amount %v - transfer %v", d, tx.AmountOrZero(), amt)
-					}
-				}
-				if dest != addr && !special(dest) {
-					if d := delta(l0, l1, dest); d.Cmp(amt) != 0 {
-						bad("dest-balance", "destination %x received %v, transfer amount %v", dest[:4], d, amt)
-					}
-				}
+				moved("transfer", addr, c15AddrOf(arg(0)), new(big.Int).SetBytes(arg(1)))
 			}
 		case kMultisig:
 			switch att.Method {
@@ -450,18 +536,7 @@ func (x *c15Ctx) checkSuccess(a *C15Action, kind string, tr *TwinResult, rc *typ
 					bad("vote", "vote of %x not stored as sent (dest %x amount %x)", sender[:4], dest[:4], arg(1))
 				}
 			case "push":
-				dest, amt := c15AddrOf(arg(0)), new(big.Int).SetBytes(arg(1))
-				if dest != addr && !special(addr) {
-					want := new(big.Int).Sub(tx.AmountOrZero(), amt)
-					if d := delta(l0, l1, addr); d.Cmp(want) != 0 {
-						bad("contract-balance", "Multisig balance changed by %v, expected pay amount %v - push %v", d, tx.AmountOrZero(), amt)
-					}
-				}
-				if dest != addr && !special(dest) {
-					if d := delta(l0, l1, dest); d.Cmp(amt) != 0 {
-						bad("dest-balance", "destination %x received %v, pushed amount %v", dest[:4], d, amt)
-					}
-				}
+				moved("push", addr, c15AddrOf(arg(0)), new(big.Int).SetBytes(arg(1)))
 				pfx := string(state.StateDbKeys.ContractStoreKey(addr, []byte("amount")))
 				for k, v := range s1 {
 					if strings.HasPrefix(k, pfx) && new(big.Int).SetBytes(v).Sign() != 0 {
@@ -469,22 +544,32 @@ func (x *c15Ctx) checkSuccess(a *C15Action, kind string, tr *TwinResult, rc *typ
 					}
 				}
 			}
+		case kOL, kROL + "1", kROL + "2":
+			// the locks pay everything they hold to an address fixed at deployment (possibly themselves)
+			for _, d := range c15DestsOf(kind, tx, rc, tr) {
+				switch att.Method {
+				case "push":
+					moved("push", addr, d.Addr, d.Value)
+				case "deposit":
+					// whatever share goes to the voting named at deployment: nothing is lost or made on the way
+					got := delta(l0, l1, addr)
+					if d.Addr != addr {
+						got.Add(got, delta(l0, l1, d.Addr))
+					}
+					if !special(d.Addr) && got.Cmp(tx.AmountOrZero()) != 0 {
+						bad("deposit-split", "deposit of %v: lock and voting %x together changed by %v", tx.AmountOrZero(), d.Addr[:4], got)
+					}
+				}
+			}
 		case kSpender:
 			if att.Method == "send" && len(arg(0)) == 20 || att.Method == "burn" {
 				amt := new(big.Int).SetBytes(arg(len(args) - 1))
-				dest := addr
 				if att.Method == "send" {
-					dest = c15AddrOf(arg(0))
-				}
-				if (dest != addr || att.Method == "burn") && !special(addr) {
+					moved("send", addr, c15AddrOf(arg(0)), amt)
+				} else if !special(addr) {
 					want := new(big.Int).Sub(tx.AmountOrZero(), amt)
 					if d := delta(l0, l1, addr); d.Cmp(want) != 0 {
 						bad("contract-balance", "contract balance changed by %v, expected pay amount %v - %s %v", d, tx.AmountOrZero(), att.Method, amt)
-					}
-				}
-				if att.Method == "send" && dest != addr && !special(dest) {
-					if d := delta(l0, l1, dest); d.Cmp(amt) != 0 {
-						bad("dest-balance", "destination %x received %v, sent amount %v", dest[:4], d, amt)
 					}
 				}
 			}
@@ -711,6 +796,7 @@ func TestVerifC15(t *testing.T) {
 		x := &c15Ctx{w: w, twin: twin, rep: rep, gen: gen, K: K}
 		rep.Count("scenarios:"+mode, 1)
 		rng := verifutil.NewRng(seed, 1515)
+		seqRng := verifutil.NewRng(seed, 1516) // the same-block sequences draw from a stream of their own
 		jumpAt := nsteps * 6 / 10
 		for i := 0; i < nsteps; i++ {
 			rep.Progress("C15 scenario %d seed %d mode %s step %d", sc, seed, mode, i)
@@ -724,8 +810,10 @@ func TestVerifC15(t *testing.T) {
 				w.Submit(tx)
 				rep.Count("funding_txs", 1)
 			}
+			var seqMid []*C15Action
 			for _, a := range acts {
 				out := x.Eval(a)
+				inSeq := a
 				if out.Included && out.Success && out.GasUsed > 1 && rng.Intn(100) < 45 {
 					// failure-point sweep: the same call with a budget that ends inside the execution
 					sw := gen.WithGas(a, int64(rng.Intn(int(out.GasUsed))))
@@ -734,14 +822,21 @@ func TestVerifC15(t *testing.T) {
 						rep.Count("gas_sweeps", 1)
 						if so.Success {
 							rep.Count("gas_sweeps_still_ok", 1)
+						} else if seqRng.Bool() {
+							inSeq = sw // the variant that runs out of gas half-way goes into the same-block sequence
 						}
 					}
+				}
+				if out.Included {
+					seqMid = append(seqMid, inSeq)
 				}
 				if a.Submit && out.Included {
 					w.Submit(a.Tx)
 					rep.Count("submitted_to_chain", 1)
 				}
 			}
+			// the whole batch in ONE block: failed txs in front of / behind successful ones
+			x.EvalSeq(i, seqMid, seqRng)
 			for _, m := range multis {
 				if x.EvalMulti(m) {
 					for _, a := range m.Acts {
@@ -1066,6 +1161,36 @@ func TestVerifC15SameBlock(t *testing.T) {
 			// both classes were evaluated on the observer; now they enter the real chain
 			if inChain(class, txs) {
 				inChain(rclass, rtxs)
+			}
+			// ---- locks that pay out to THEMSELVES: an oracle lock and a refundable oracle lock bound to
+			// the voting that has just been finished, deployed with their own (future) address as success
+			// and fail address; `push` then makes the contract send everything it holds to itself
+			if c15B0(g.cval(c.Addr, "state")) == 2 {
+				pusher := w.Accounts[4]
+				lockCall := func(lc *C15Contract, from *Actor, method string, amount *big.Int) *C15Action {
+					return g.build(&cand{txKind: "Call", kind: lc.Kind, c: lc, from: from, method: method, amount: amount, shape: "valid", noMut: true})
+				}
+				ol := &C15Contract{Kind: kOL, Owner: owner}
+				self := g.futureAddr(owner)
+				commit("self-paying oracle lock: deploy", g.build(&cand{txKind: "Deploy", kind: kOL, c: ol, from: owner, method: "deploy", shape: "valid", noMut: true,
+					amount: new(big.Int).Add(g.minStake(), big.NewInt(5)), args: [][]byte{c.Addr.Bytes(), {1}, self.Bytes(), self.Bytes()}}))
+				if ol.Addr != self {
+					c15Fatal(t, rep, "the oracle lock did not get the predicted address")
+				}
+				commit("self-paying oracle lock: check", lockCall(ol, pusher, "checkOracleVoting", Dna(25)))
+				commit("self-paying oracle lock: push", lockCall(ol, pusher, "push", Dna(3)))
+				rl := &C15Contract{Kind: kROL, Owner: owner}
+				self = g.futureAddr(owner)
+				commit("self-paying refundable lock: deploy", g.build(&cand{txKind: "Deploy", kind: kROL, c: rl, from: owner, method: "deploy", shape: "valid", noMut: true,
+					amount: new(big.Int).Add(g.minStake(), big.NewInt(5)),
+					args:   [][]byte{c.Addr.Bytes(), {1}, self.Bytes(), self.Bytes(), u64b(0), u64b(uint64(w.Now().Unix() + 100000)), feeArg}}))
+				if rl.Addr != self {
+					c15Fatal(t, rep, "the refundable oracle lock did not get the predicted address")
+				}
+				commit("self-paying refundable lock: deposit", lockCall(rl, w.Accounts[1], "deposit", Dna(300)))
+				commit("self-paying refundable lock: push", lockCall(rl, pusher, "push", big.NewInt(0)))
+			} else {
+				rep.Note("scenario %s: the scripted voting is not in state finished, self-paying locks not exercised", mode)
 			}
 		}
 		w.Cleanup()
